@@ -49,6 +49,9 @@ ASSUMPTIONS = [
     'count as identifying (they coincide in all generated models except some ooaofooa classes)',
     'the value of an identifying attribute that is also referential is the value read through the link (None when unlinked)',
     'per-class population bounds and palettes as reported under bounds; within them the enumeration is complete',
+    'every association-shape model is loaded twice: nulls as id 0 in positional INSERTs and nulls as absent columns of named '
+    'INSERTs; identifier-set models use named INSERTs (unset = absent column)',
+    'a stage that reports violations ends the run (stages: command lines, identifier sets, association shapes, histories)',
     'bridgepoint.consistency_check is decided on BridgePoint-format rows of PE_PE, S_DT, S_CDT (plus the built-in globals with -g)',
 ]
 
@@ -418,7 +421,7 @@ A_BOUNDS = {
         'e_reflexive_1c_1c': ({'A': 4}, 3, False),
         'f_reflexive_1_mc': ({'A': 4}, 3, False),
         'g_assoc_class': ({'A': 2, 'B': 2, 'C': 2}, 2, True),
-        'g2_reflexive_assoc_class': ({'A': 3, 'C': 3}, 2, False),
+        'g2_reflexive_assoc_class': ({'A': 3, 'C': 2}, 2, True),
         'h_subsuper': ({'P': 3, 'S1': 2, 'S2': 2}, 2, False),
     },
 }
@@ -890,8 +893,8 @@ D_BASE = [
 ]
 D_OPTS = {
     'quick': [[[], []], [[8001], []], [[17, 80], []], [[], ['S_DT']], [[], ['pe_pe', 'S_CDT']], [[17], ['S_DT']]],
-    'thorough': [[rs, ks] for rs in subsets([8001, 17]) for ks in subsets(['S_DT', 'pe_pe'])] +
-                [[[80], []], [[17, 80], ['S_CDT']]],
+    'thorough': [[rs, ks] for rs in subsets([8001, 17]) for ks in ([], ['S_DT'], ['S_DT', 'pe_pe'])] +
+                [[[80], []], [[17, 80], ['S_CDT']], [[], ['pe_pe']]],
 }
 
 
@@ -1277,6 +1280,8 @@ def coverage(ctx):
         bounds=dict(association_shapes=dict((k, dict(max_instances=v[0], referred_keys=v[1], own_id_duplicates=v[2]))
                                             for k, v in A_BOUNDS[ctx.tier].items()),
                     type_spellings=SPELLINGS, null_forms=['id 0 (positional INSERT)', 'absent column (named INSERT)'],
+                    type_spelling_deviations='upper / mixed case: every class <= 2 and at most 3 instances in all (quick); '
+                                             'the quick bounds of the default spelling (thorough)',
                     referential_palette=['null', 'k1', 'k2', 'dangling'],
                     identifier_sets=len(B_IDSETS), identifier_types=B_TYPES, identifier_values=B_VALUES,
                     identifier_instances=B_MAXN[ctx.tier], identifier_type_spellings=B_SPELL,
